@@ -21,7 +21,7 @@ def verify(contract, module, qualname, variant=None, timeout_ms=10000):
         src = env.source(module)
         eng = E.Engine(contract, src, qualname, timeout_ms)
         if variant:
-            eng.fn = E.Engine.extract_variant(src, qualname, variant)
+            eng.fn = E.Engine._normalise(E.Engine.extract_variant(src, qualname, variant))
         vcs = eng.run()
     except E.Unsupported as e:
         return [{"_notapplicable": fnid, "reason": str(e)}]
@@ -59,7 +59,7 @@ def verify(contract, module, qualname, variant=None, timeout_ms=10000):
         try:
             eng2 = E.Engine(c2, src, qualname, timeout_ms)
             if variant:
-                eng2.fn = E.Engine.extract_variant(src, qualname, variant)
+                eng2.fn = E.Engine._normalise(E.Engine.extract_variant(src, qualname, variant))
             vcs2 = [v for v in eng2.run() if v[0].startswith("post:")]
             refuted = False
             for name, hyps, goal, line in vcs2:
